@@ -20,7 +20,7 @@
 (***************************************************************************)
 EXTENDS Naturals, Sequences, FiniteSets, TLC, SequencesExt
 
-CONSTANTS Rules, MaxLen
+CONSTANTS Rules, MaxLen, Shared
 
 User   == {"assign", "callkw", "loop", "ifret", "nested", "compr", "strexpr"}
 FnTok  == User \cup {"ret", "bareret"}
@@ -51,19 +51,32 @@ CarryArg(b) ==
            ELSE b
     ELSE b
 
-VARIABLES kind, body, out
-vars == <<kind, body, out>>
+\* `held` is the body inside the parsed description.  Re-homing it into a class `__call__` (Rehome) works on a copy
+\* (Shared = FALSE, the code since "fix: emitters deepcopy"); with Shared = TRUE the class emitter rewrites the held
+\* statements themselves, so a parameter reference becomes self.<name> ("rewritten") in every later conversion of the
+\* same description (Body_shared.cfg shows TLC finding that).
+HasParamRef == {"assign", "callkw", "loop", "ifret", "ret"}
+RewriteInPlace(b) == [i \in 1..Len(b) |-> IF b[i] \in HasParamRef THEN "rewritten" ELSE b[i]]
+VARIABLES kind, body, held, out, rehomed
+vars == <<kind, body, held, out, rehomed>>
 Init == /\ kind \in {"function", "argparse"}
         /\ body \in (IF kind = "function" THEN FnBodies ELSE ArgBodies)
+        /\ held = body /\ rehomed = FALSE
         /\ out = <<"pending">>
-Convert == /\ out = <<"pending">>
-           /\ out' = IF kind = "function" THEN CarryFn(body) ELSE CarryArg(body)
+Carry(k, b) == IF k = "function" THEN CarryFn(b) ELSE CarryArg(b)
+Convert == /\ out' = Carry(kind, held)
+           /\ UNCHANGED <<kind, body, held, rehomed>>
+Rehome  == /\ kind = "function" /\ ~rehomed /\ rehomed' = TRUE
+           /\ held' = IF Shared THEN RewriteInPlace(held) ELSE held
+           /\ out' = <<"pending">>
            /\ UNCHANGED <<kind, body>>
-Spec == Init /\ [][Convert]_vars
+Spec == Init /\ [][Convert \/ Rehome]_vars
 
 Done == out # <<"pending">>
 \* no statement dropped, duplicated or reordered
 Verbatim   == Done => out = body
 \* the final return is kept exactly once
 ReturnOnce == Done /\ kind = "function" => Cardinality({i \in 1..Len(out) : out[i] = "ret"}) = Cardinality({i \in 1..Len(body) : body[i] = "ret"})
+\* the description still holds the body it was parsed from, however many artefacts were made from it
+HeldIntact == held = body
 =============================================================================
